@@ -121,9 +121,23 @@ class Monitor:
         self.ok_cache: set[tuple] = set()
         self.allowed_seen: set[str] = set()
         self.trace: list[tuple] | None = None  # filled in replay mode
+        self.calls_seen = 0
+        self.callables_served = 0   # a drop's __getitem__ handed a callable to the engine
 
     def configure(self, repo_dir: str) -> None:
         self.liq_root = os.path.join(os.path.realpath(repo_dir), "liquid2") + os.sep
+
+    def called(self, kind: str, frame) -> None:  # noqa: ANN001
+        """A callable *item* (a value the host exposed through item access) was invoked."""
+        if frame is None or frame.f_code.co_filename in HARNESS_FILES:
+            return
+        self.calls_seen += 1
+        self.bad.append({
+            "kind": "called",
+            "key": f"callable-item-called:{kind}@{self.innermost_liquid2(frame)}",
+            "callable": kind,
+            "caller": self.modfunc(frame.f_code) or f"{os.path.basename(frame.f_code.co_filename)}:{frame.f_code.co_name}",
+        })
 
     def reset_case(self, names: frozenset[str]) -> None:
         self.events = 0
@@ -510,3 +524,127 @@ def make(shape: str, idx: int = 0, **kw: Any) -> Any:
 
 def is_spy(o: object) -> bool:
     return type(o) in INFO
+
+
+# ---------------------------------------------------------------------------------------
+# callable items: values the host exposed through ITEM access that happen to be callable.
+# The engine may hand them around and stringify them (that is what the host exposed); it
+# must never CALL them nor look inside what a call would return.  Every callable records
+# that it was called (MON.called) and returns a mapping holding `callresult` canaries.
+# ---------------------------------------------------------------------------------------
+
+CALL_RESULT_KEYS = ("token", "list", "nested", "n")
+
+
+def call_result(kind: str) -> dict[str, Any]:
+    return {
+        "token": f"CNRY_callresult_token_{kind}",
+        "list": [f"CNRY_callresult_list0_{kind}", f"CNRY_callresult_list1_{kind}"],
+        "nested": {"token": f"CNRY_callresult_nested_{kind}"},
+        "n": 41,
+    }
+
+
+def _vault_open(self):  # noqa: ANN001
+    MON.called("method", _get(1))
+    return call_result("method")
+
+
+Vault = _make("vault", (), {"open": _vault_open})
+
+
+def _callobj_call(self, *a: Any, **k: Any):  # noqa: ANN001, ARG001
+    MON.called("callobj", _get(1))
+    return call_result("callobj")
+
+
+CallObj = _make("callobj", (), {"__call__": _callobj_call})
+
+
+def lazy_func() -> dict[str, Any]:
+    MON.called("func", _get(1))
+    return call_result("func")
+
+
+lazy_lambda = lambda: (MON.called("lambda", _get(1)), call_result("lambda"))[1]  # noqa: E731
+
+
+def _lazy_with_arg(tag: str) -> dict[str, Any]:
+    MON.called("partial", _get(1))
+    return call_result("partial")
+
+
+async def lazy_coro() -> dict[str, Any]:
+    MON.called("coro", _get(1))
+    return call_result("coro")
+
+
+class LazyClass:
+    """Instantiating it is a call; the instance is a little read-only mapping."""
+
+    def __init__(self) -> None:
+        MON.called("class", _get(1))
+        self._d = call_result("class")
+
+    def __getitem__(self, key: str) -> Any:
+        return self._d[key]
+
+    def __len__(self) -> int:
+        return len(self._d)
+
+    def __iter__(self):  # noqa: ANN204
+        return iter(self._d)
+
+    def __str__(self) -> str:
+        return "PUBSTR_LAZYINSTANCE"
+
+    @staticmethod
+    def static_loader() -> dict[str, Any]:
+        MON.called("staticmethod", _get(1))
+        return call_result("staticmethod")
+
+    @classmethod
+    def class_loader(cls) -> dict[str, Any]:
+        MON.called("classmethod", _get(1))
+        return call_result("classmethod")
+
+
+CALLABLE_KINDS = ["method", "func", "lambda", "partial", "class", "coro", "builtin", "callobj",
+                  "staticmethod", "classmethod"]
+
+
+def make_callables() -> dict[str, Any]:
+    """Fresh callables, one per kind (the call of `builtin` cannot be recorded; its result
+    canary still can be seen)."""
+    import functools
+
+    return {
+        "method": Vault(0).open,
+        "func": lazy_func,
+        "lambda": lazy_lambda,
+        "partial": functools.partial(_lazy_with_arg, "x"),
+        "class": LazyClass,
+        "coro": lazy_coro,
+        "builtin": call_result("builtin").copy,
+        "callobj": CallObj(0),
+        "staticmethod": LazyClass.static_loader,
+        "classmethod": LazyClass.class_loader,
+    }
+
+
+def _calldrop_setup(self, idx: int, **kw: Any) -> None:  # noqa: ARG001
+    self._exposed = dict(kw.get("items") or {})
+    self._exposed["title"] = "PUB_CALLDROP"
+
+
+def _calldrop_getitem(self, key):  # noqa: ANN001
+    exposed = _o(self, "_exposed")
+    if isinstance(key, str) and key in exposed:
+        v = exposed[key]
+        if callable(v):
+            MON.callables_served += 1
+        return v
+    raise KeyError(key)
+
+
+CallDrop = _make("calldrop", (Mapping,), {**_MAP_NS, "_setup": _calldrop_setup, "__getitem__": _calldrop_getitem})
